@@ -226,7 +226,36 @@ pub fn run(p: &Prog, cfg: &Cfg, rep: &mut Report) {
                     }
                     tally.class("step:ok");
                 }
-                (StepRes::Err(_), StepRes::Err(_)) | (StepRes::Panicked, StepRes::Err(_)) => tally.class("step:both-fail"),
+                (StepRes::Err(a), StepRes::Err(b)) => {
+                    tally.class("step:both-fail");
+                    // exec: the error the proxy reports is the chain's error for the same JSON -- the
+                    // contract's own / a StdError found in the chain as such, anything else as a generic
+                    // error carrying the chain's (outermost) description
+                    if let Op::Call { handler, .. } = op {
+                        if handlers[*handler].kind == Kind::Exec {
+                            use crate::types::ErrClass;
+                            match b.class {
+                                ErrClass::Other => {
+                                    tally.class("exec-fail:chain-error");
+                                    // (the chain's description embeds the JSON body, whose member order is the
+                                    // submitter's business: compared up to there)
+                                    let shown = a.text.strip_prefix("Generic error: ").unwrap_or(&a.text);
+                                    let shown = shown.split("msg: ").next().unwrap_or(shown);
+                                    if shown.is_empty() || !b.text.starts_with(shown) {
+                                        return Err(at("exec-error-text", json!({"proxy": a.text, "raw": b.text})));
+                                    }
+                                }
+                                _ => {
+                                    tally.class("exec-fail:typed-error");
+                                    if a.text != b.text {
+                                        return Err(at("exec-error-text", json!({"proxy": a.text, "raw": b.text})));
+                                    }
+                                }
+                            }
+                        }
+                    }
+                }
+                (StepRes::Panicked, StepRes::Err(_)) => tally.class("step:both-fail"),
                 (a, b) => return Err(at("outcome", json!({"proxy": format!("{a:?}"), "raw": format!("{b:?}")}))),
             }
             // chain state agrees
